@@ -695,6 +695,13 @@ class TaskDispatcher(object):
                         self.orphaned_response_retention_ms
                     )
                     self.orphaned_responses[correlation_id] = (message, timeout_id)
+                    """
+                    Make sure that the retained response gets matched if its
+                    request is only (re)registered later, e.g. by the delayed
+                    Task state delegate of a redelivered event, as no further
+                    event might be dispatched for this execution meanwhile.
+                    """
+                    self.schedule_orphaned_response_handler()
             else:
                 """
                 If the uptime is more than the retention period for orphaned
